@@ -9,6 +9,11 @@ from .abstok import EOF, BOF, M
 from .interp import strip_doc
 
 
+def alphabet(ctx):
+    """the abstract alphabet alone (category table folded, first-match semantics) -- no tokenizer exploration"""
+    return ctx.memo('alphabet', lambda: abstok.Alphabet(ctx.repo))
+
+
 def table(ctx):
     return ctx.memo('tok.table', lambda: abstok.explore(ctx.repo, thorough=(ctx.tier == 'thorough')))
 
@@ -279,6 +284,29 @@ def r19_a(ctx):
             rr.ob(False)
             rr.fail(Finding('R19.a', 'category', 'categorize', n._parent if hasattr(n, '_parent') else n,
                             'the loop rebinds %s before yielding' % n.id, line=n.lineno))
+    # the category is a function of the character alone: no state carried from one character to the next, no look at
+    # the neighbouring input (the tokenizer abstraction of E5 rests on this)
+    before = set()
+    for s_ in body:
+        if s_ is loop:
+            break
+        for n in ast.walk(s_):
+            if isinstance(n, ast.Name) and isinstance(n.ctx, ast.Store):
+                before.add(n.id)
+    stored_in = {n.id for n in ast.walk(loop) if isinstance(n, ast.Name) and isinstance(n.ctx, ast.Store)} - {idx, ch}
+    loaded_in = {n.id for s_ in loop.body for n in ast.walk(s_) if isinstance(n, ast.Name) and isinstance(n.ctx, ast.Load)}
+    carried = sorted(stored_in & before & loaded_in)
+    looks = [n for s_ in loop.body for n in ast.walk(s_) if isinstance(n, ast.Name) and n.id == params[0]]
+    rr.ob(not carried and not looks, {'state_carried_between_characters': carried, 'reads_of_the_input_inside_the_loop': len(looks)})
+    if carried:
+        rr.fail(Finding('R19.a', 'category', 'categorize', 'state carried across characters: %s' % ', '.join(carried),
+                        'the categoriser keeps state from one character to the next (%s): the category of a character then '
+                        'depends on what came before it -- also on text inside comments and verbatim bodies, which must '
+                        'stay inert' % ', '.join(carried), line=loop.lineno))
+    if looks:
+        rr.fail(Finding('R19.a', 'category', 'categorize', looks[0]._parent if hasattr(looks[0], '_parent') else looks[0],
+                        'the categoriser inspects the input around the current character: the category of a character is '
+                        'no longer a function of the character alone', line=looks[0].lineno))
     # enumerate paths through the loop body counting yields
     paths = _yield_paths(loop.body)
     if len(paths) > 256:
@@ -300,7 +328,10 @@ def r19_a(ctx):
                         v = Folder(repo, fd.module).ev(a2)
                         good_args = isinstance(v, FEnumMember) and v.enum.name == table(ctx).alphabet.CC.name
                     except Unfoldable:
-                        good_args = isinstance(a2, ast.Name)
+                        # the loop variable of the in-line table scan, or a helper that is that scan
+                        good_args = isinstance(a2, ast.Name) or (
+                            abstok.table_scan_helper(repo, fd.module, a2) is not None
+                            and isinstance(a2.args[0], ast.Name) and a2.args[0].id == ch)
         rr.ob(ok and good_args, {'path': p['desc'], 'yields': len(ys)})
         if not ok:
             rr.fail(Finding('R19.a', 'category', 'categorize', 'loop path [%s]: %d yields%s' % (
@@ -312,6 +343,16 @@ def r19_a(ctx):
             rr.fail(Finding('R19.a', 'category', 'categorize', ys[0],
                             'the yielded token is not Token(<the character>, <its enumerate index>, <category>)',
                             line=ys[0].lineno))
+    return rr
+
+
+def r19_a_precondition(ctx):
+    """R19.a as the soundness precondition of the tokenizer abstraction, for properties that do not themselves speak
+    about categorisation: when it fails, those properties are not decidable by E5 (exit 2), they are not violated"""
+    rr = r19_a(ctx)
+    if rr.findings:
+        raise AnalysisError('the categoriser is not a per-character table look-up (%s): the tokenizer abstraction does not '
+                            'apply to this tree' % rr.findings[0].construct[:80])
     return rr
 
 
@@ -349,122 +390,220 @@ def _yield_paths(stmts):
 
 
 def r19_f(ctx):
-    """tokenize: every non-None result of next_token is yielded exactly once, in order; the loop ends only on None"""
+    """tokenize: every non-None result of next_token is yielded exactly once, in order; the generator ends only when
+    the driver returned None.  Decided by a small path-sensitive abstract interpretation of the generator: a driver
+    call returns a fresh token or None (both explored); `is None` / `is not None` tests refine; loops run to a
+    fixpoint over (variable -> token identity / None, yields per live token, last driver result, last yielded)."""
     repo = ctx.repo
     fd = repo.need_func('tokens.tokenize')
     rr = RuleResult('R19.f', 'the token generator yields every token the driver returns exactly once and stops '
                     'only when the driver returns None', floor=3)
     body = strip_doc(fd.node.body)
-    # abstract walk: variable -> ('tok', n_yields) ; driver call results
     findings = []
 
     def is_driver_call(n):
         return isinstance(n, ast.Call) and isinstance(n.func, ast.Name) and n.func.id == 'next_token'
 
-    state0 = {'vars': {}, 'pending': None}
+    # state: (vars: tuple of (name, tokid|None) sorted, yields: tuple of (tokid, n) sorted, last: 'tok'|'none'|'start',
+    #         lasty: tokid|None)
+    def mk(vars_, yields, last, lasty):
+        live = {v for _, v in vars_.items() if v is not None}
+        for t, n in list(yields.items()):
+            if t not in live and t != lasty:
+                if n != 1:
+                    return None, t, n
+                del yields[t]
+        return (tuple(sorted(vars_.items())), tuple(sorted(yields.items())), last, lasty), None, None
 
-    def run(stmts, st, depth=0):
-        """returns list of states after the block (path-sensitive, loops unrolled 2x)"""
-        sts = [st]
-        for s in stmts:
-            nxt = []
-            for cur in sts:
-                nxt += step(s, cur, depth)
-            sts = nxt
-        return sts
+    def canon(st, node):
+        vars_, yields, last, lasty = dict(st[0]), dict(st[1]), st[2], st[3]
+        live = {v for v in vars_.values() if v is not None}
+        for t, n in list(yields.items()):
+            if t not in live:
+                if n != 1:
+                    findings.append((node, 'a token returned by the driver is %s' % (
+                        'dropped without being yielded' if n == 0 else 'yielded %d times' % n)))
+                del yields[t]
+        # rename token ids canonically
+        ren = {}
+        for name in sorted(vars_):
+            v = vars_[name]
+            if v is not None and v not in ren:
+                ren[v] = len(ren)
+        if lasty is not None and lasty not in ren:
+            lasty_c = 'gone'
+        else:
+            lasty_c = ren.get(lasty) if lasty is not None else None
+        return (tuple(sorted((k, (ren[v] if v is not None else None)) for k, v in vars_.items())),
+                tuple(sorted((ren[t], n) for t, n in yields.items())), last, lasty_c)
 
-    def clone(st):
-        return {'vars': dict(st['vars']), 'pending': st['pending'], 'dead': st.get('dead', False)}
+    def value_of(e, st):
+        """('tok', id) | ('none',) | ('unknown',)"""
+        vars_ = dict(st[0])
+        if isinstance(e, ast.Name) and e.id in vars_:
+            return ('tok', vars_[e.id]) if vars_[e.id] is not None else ('none',)
+        if isinstance(e, ast.Constant) and e.value is None:
+            return ('none',)
+        return ('unknown',)
 
-    def step(s, st, depth):
-        if st.get('dead'):
-            return [st]
-        st = clone(st)
-        if isinstance(s, ast.Assign) and len(s.targets) == 1 and isinstance(s.targets[0], ast.Name) and is_driver_call(s.value):
-            name = s.targets[0].id
-            old = st['vars'].get(name)
-            if old is not None and old[0] == 'tok' and old[1] != 1:
-                findings.append((s, 'token from the driver overwritten after being yielded %d times' % old[1]))
-            # prev argument must be the token just yielded (or absent on the first call)
-            st['vars'][name] = ('tok', 0)
-            return [st]
-        if isinstance(s, ast.Expr) and isinstance(s.value, ast.Yield):
-            v = s.value.value
-            if isinstance(v, ast.Name) and v.id in st['vars'] and st['vars'][v.id][0] == 'tok':
-                st['vars'][v.id] = ('tok', st['vars'][v.id][1] + 1)
-            else:
-                findings.append((s, 'yields something that is not the token the driver returned'))
-            return [st]
-        if isinstance(s, ast.Expr) and isinstance(s.value, ast.YieldFrom):
-            findings.append((s, 'yield from in the token generator'))
-            return [st]
-        if isinstance(s, ast.While):
-            t = s.test
-            ok_test = (isinstance(t, ast.Compare) and len(t.ops) == 1 and isinstance(t.ops[0], ast.IsNot)
-                       and isinstance(t.left, ast.Name) and isinstance(t.comparators[0], ast.Constant)
-                       and t.comparators[0].value is None)
-            if not ok_test:
-                # `while tok:` would stop at an empty token; anything else is unknown
-                findings.append((s, 'the generator loop does not test `<token> is not None`: it may stop before the '
-                                 'driver is exhausted'))
-                return [st]
-            name = t.left.id
-            outs = []
-            cur = [st]
-            for _ in range(2):
-                nxt = []
-                for c in cur:
-                    # exit branch: token is None -> nothing pending
-                    e = clone(c)
-                    e['vars'][name] = ('none',)
-                    outs.append(e)
-                    for b in run(s.body, clone(c), depth + 1):
-                        if b.get('broke'):
-                            b2 = clone(b)
-                            outs.append(b2)
-                        else:
-                            nxt.append(b)
-                cur = nxt
-            return outs
-        if isinstance(s, (ast.Break, ast.Return)):
-            st['broke'] = True
-            st['dead'] = True
-            for k, v in st['vars'].items():
-                if v[0] == 'tok' and v[1] == 0:
-                    findings.append((s, 'leaves the generator with a token that was never yielded'))
-            return [st]
-        if isinstance(s, ast.If):
-            return run(s.body, clone(st), depth) + run(s.orelse, clone(st), depth)
-        if isinstance(s, (ast.Assert, ast.Pass)):
-            return [st]
-        if isinstance(s, ast.Expr):
-            return [st]
-        if isinstance(s, ast.Assign):
-            for tg in s.targets:
-                if isinstance(tg, ast.Name) and tg.id in st['vars']:
-                    old = st['vars'][tg.id]
-                    if old[0] == 'tok' and old[1] == 0:
-                        findings.append((s, 'token from the driver overwritten before being yielded'))
-                    st['vars'].pop(tg.id)
-            return [st]
-        raise AnalysisError('tokenize: unsupported statement %s' % type(s).__name__)
+    def assign(st, name, val, node):
+        vars_, yields = dict(st[0]), dict(st[1])
+        vars_[name] = val
+        return canon((tuple(vars_.items()), tuple(yields.items()), st[2], st[3]), node)
 
-    finals = run(body, state0)
+    def driver_call(st, call, node):
+        """-> list of (value, state)"""
+        # the prev argument: the token yielded last (or nothing before the first yield)
+        prev = None
+        for k in call.keywords:
+            if k.arg == 'prev':
+                prev = k.value
+        if prev is None and len(call.args) > 1:
+            prev = call.args[1]
+        pv = value_of(prev, st) if prev is not None else ('none',)
+        lasty = st[3]
+        if lasty == 'gone' or (pv[0] == 'tok' and pv[1] != lasty) or (pv[0] == 'none' and lasty is not None) or pv[0] == 'unknown':
+            findings.append((call, 'the driver is not given the token yielded last as its `prev` argument'))
+        vars_, yields = dict(st[0]), dict(st[1])
+        new = max([v for v in vars_.values() if v is not None] + list(yields) + [-1]) + 1
+        y2 = dict(yields)
+        y2[new] = 0
+        s_tok = (tuple(vars_.items()), tuple(y2.items()), 'tok', st[3])
+        s_none = (tuple(vars_.items()), tuple(yields.items()), 'none', st[3])
+        return [(new, s_tok), (None, s_none)]
+
+    def cond(t, st):
+        """-> list of (bool, state)"""
+        if isinstance(t, ast.Constant):
+            return [(bool(t.value), st)]
+        if isinstance(t, ast.UnaryOp) and isinstance(t.op, ast.Not):
+            return [(not b, s_) for b, s_ in cond(t.operand, st)]
+        if isinstance(t, ast.Compare) and len(t.ops) == 1 and isinstance(t.ops[0], (ast.Is, ast.IsNot)) \
+                and isinstance(t.comparators[0], ast.Constant) and t.comparators[0].value is None:
+            v = value_of(t.left, st)
+            if v[0] == 'unknown':
+                raise AnalysisError('tokenize: test %s not decidable' % norm(t))
+            r = (v[0] == 'none')
+            return [(r if isinstance(t.ops[0], ast.Is) else not r, st)]
+        if isinstance(t, ast.Name) and value_of(t, st)[0] != 'unknown':
+            # truthiness of a token: an empty token is falsy -- the loop could stop early; R19.c forbids empty tokens,
+            # so this is reported as what it is
+            findings.append((t, 'the generator tests the truth value of a token instead of `is None`: it would stop '
+                             'at an empty token before the driver is exhausted'))
+            v = value_of(t, st)
+            return [(v[0] == 'tok', st)]
+        raise AnalysisError('tokenize: test %s not decidable' % norm(t))
+
+    def run(stmts, states):
+        """states: set of canonical states; returns dict outcome -> set of states (outcomes next/break/continue/return)"""
+        out = {'next': set(states), 'break': set(), 'continue': set(), 'return': set()}
+        for s_ in stmts:
+            cur = out['next']
+            out['next'] = set()
+            for st in cur:
+                for oc, st2 in step(s_, st):
+                    out[oc].add(st2)
+        return out
+
+    def step(s_, st):
+        if isinstance(s_, ast.Assign) and len(s_.targets) == 1 and isinstance(s_.targets[0], ast.Name):
+            name = s_.targets[0].id
+            v = s_.value
+            if is_driver_call(v):
+                return [('next', assign(st2, name, val, s_)) for val, st2 in driver_call(st, v, s_)]
+            if isinstance(v, ast.IfExp):
+                res = []
+                for b, st2 in cond(v.test, st):
+                    br = v.body if b else v.orelse
+                    if is_driver_call(br):
+                        res += [('next', assign(st3, name, val, s_)) for val, st3 in driver_call(st2, br, s_)]
+                    else:
+                        vv = value_of(br, st2)
+                        if vv[0] == 'unknown':
+                            raise AnalysisError('tokenize: assignment %s not decidable' % norm(s_))
+                        res.append(('next', assign(st2, name, vv[1] if vv[0] == 'tok' else None, s_)))
+                return res
+            vv = value_of(v, st)
+            if vv[0] == 'unknown':
+                if any(is_driver_call(x) for x in ast.walk(v)):
+                    raise AnalysisError('tokenize: driver call inside %s' % norm(s_))
+                if name in dict(st[0]):
+                    return [('next', assign(st, name, None, s_))]
+                return [('next', st)]
+            return [('next', assign(st, name, vv[1] if vv[0] == 'tok' else None, s_))]
+        if isinstance(s_, ast.Expr) and isinstance(s_.value, ast.Yield):
+            v = value_of(s_.value.value, st) if s_.value.value is not None else ('unknown',)
+            if v[0] != 'tok':
+                findings.append((s_, 'yields something that is not a token the driver returned'))
+                return [('next', st)]
+            yields = dict(st[1])
+            yields[v[1]] = yields.get(v[1], 0) + 1
+            if yields[v[1]] > 1:
+                findings.append((s_, 'a token returned by the driver is yielded %d times' % yields[v[1]]))
+                yields[v[1]] = 1
+            return [('next', canon((st[0], tuple(yields.items()), st[2], v[1]), s_))]
+        if isinstance(s_, ast.Expr) and isinstance(s_.value, ast.YieldFrom):
+            findings.append((s_, 'yield from in the token generator'))
+            return [('next', st)]
+        if isinstance(s_, ast.Expr):
+            if any(is_driver_call(x) for x in ast.walk(s_)):
+                findings.append((s_, 'a token returned by the driver is dropped without being yielded'))
+            return [('next', st)]
+        if isinstance(s_, (ast.Assert, ast.Pass)):
+            return [('next', st)]
+        if isinstance(s_, ast.Break):
+            return [('break', st)]
+        if isinstance(s_, ast.Continue):
+            return [('continue', st)]
+        if isinstance(s_, ast.Return):
+            return [('return', st)]
+        if isinstance(s_, ast.If):
+            res = []
+            for b, st2 in cond(s_.test, st):
+                o = run(s_.body if b else s_.orelse, {st2})
+                for oc, sts in o.items():
+                    res += [(oc, x) for x in sts]
+            return res
+        if isinstance(s_, ast.While):
+            seen, work, exits = set(), [st], []
+            while work:
+                c = work.pop()
+                if c in seen:
+                    continue
+                seen.add(c)
+                if len(seen) > 500:
+                    raise AnalysisError('tokenize: generator loop does not stabilise')
+                for b, c2 in cond(s_.test, c):
+                    if not b:
+                        o = run(s_.orelse, {c2})
+                        exits += [('next', x) for x in o['next']] + [('return', x) for x in o['return']]
+                        continue
+                    o = run(s_.body, {c2})
+                    work += list(o['next']) + list(o['continue'])
+                    exits += [('next', x) for x in o['break']] + [('return', x) for x in o['return']]
+            return exits
+        raise AnalysisError('tokenize: unsupported statement %s' % type(s_).__name__)
+
+    start = ((), (), 'start', None)
+    # parameters are not tokens
+    o = run(body, {start})
+    ends = list(o['next']) + list(o['return'])
+    for st in ends:
+        st_end = canon((tuple((k, None) for k, _ in st[0]), st[1], st[2], st[3]), fd.node)    # locals die: unyielded tokens are reported
+        if st[2] != 'none':
+            findings.append((fd.node, 'the generator can end although the driver\'s last result was a token (or it was '
+                             'never asked): input left in the buffer is not tokenized'))
     n_calls = sum(1 for n in ast.walk(fd.node) if is_driver_call(n))
     n_yields = sum(1 for n in ast.walk(fd.node) if isinstance(n, ast.Yield))
     rr.ob(n_calls >= 1, {'driver_calls': n_calls})
     rr.ob(n_yields >= 1, {'yields': n_yields})
-    for st in finals:
-        for k, v in st['vars'].items():
-            if v[0] == 'tok' and v[1] != 1 and not st.get('broke'):
-                findings.append((fd.node, 'a path ends holding a driver token yielded %d times' % v[1]))
-    # the prev argument of every non-first driver call must be the variable holding the last token
+    rr.ob(bool(ends), {'generator_exit_states': len(ends)})
     for n in ast.walk(fd.node):
         if is_driver_call(n):
             rr.ob(True, {'call': norm(n)})
     uniq = {}
     for node, msg in findings:
-        uniq.setdefault((norm(node)[:120], msg), node)
+        uniq.setdefault((norm(node)[:120] if not isinstance(node, ast.FunctionDef) else 'def tokenize', msg), node)
     for (c, msg), node in uniq.items():
         rr.ob(False)
         rr.fail(Finding('R19.f', 'tokens', 'tokenize', c, msg, line=getattr(node, 'lineno', 0)))
@@ -473,6 +612,8 @@ def r19_f(ctx):
     if n_yields == 0:
         rr.fail(Finding('R19.f', 'tokens', 'tokenize', 'no yield of the driver token',
                         'the token generator never yields the tokens the driver returns', line=fd.node.lineno))
+    if not ends:
+        raise AnalysisError('tokenize: the generator has no exit')
     return rr
 
 
@@ -882,10 +1023,42 @@ def r17_e(ctx):
     return rr
 
 
+def r09_i(ctx):
+    """which characters may separate arguments: the effective Spacer category is space and tab, the effective
+    EndOfLine category is LF and CR (first matching table entry wins, as in categorize)"""
+    A = alphabet(ctx)
+    rr = RuleResult('R09.i', 'only spaces and tabs are categorised as blanks and only LF / CR as line ends: no other '
+                    'character can be absorbed into the whitespace that separates a command from its arguments', floor=2)
+    want = {'Spacer': {' ', '\t'}, 'EndOfLine': {'\n', '\r'}}
+    universe = set()
+    for cc, vals in A.codes.items():
+        universe |= set(vals) if not isinstance(vals, str) else set(vals)
+    for cname, allowed in want.items():
+        cc = A.CC.members.get(cname)
+        if cc is None:
+            raise AnalysisError('CC.%s vanished' % cname)
+        eff = {ch for ch in universe if len(ch) == 1 and A.cat_of_char(ch) == cc}
+        extra = sorted(eff - allowed)
+        missing = sorted(allowed - eff) if cname == 'Spacer' else []
+        ok = not extra and not missing
+        rr.ob(ok, {'category': cname, 'characters': sorted(repr(c) for c in eff)})
+        if not ok:
+            rr.fail(Finding('R09.i', 'category', 'CATEGORY_CODES', 'CC.%s is %s' % (cname, sorted(repr(c) for c in eff)),
+                            'the characters %s are categorised as %s%s: such a character between a command and a group (or '
+                            'between two groups) is absorbed into the separating whitespace, so a group that the property '
+                            'leaves in the surrounding text is attached as an argument' % (
+                                [repr(c) for c in extra], cname, '' if not missing else ' and %s are not' % [repr(c) for c in missing]),
+                            line=0))
+    if A.default_cc.mname in want:
+        rr.ob(False)
+        rr.fail(Finding('R09.i', 'category', 'categorize', 'fallback category %s' % A.default_cc.mname,
+                        'characters outside the table fall into a whitespace category', line=0))
+    return rr
+
+
 def r19_i(ctx):
     """the only characters that rules may drop silently are NUL and DEL"""
-    t = table(ctx)
-    A = t.alphabet
+    A = alphabet(ctx)
     rr = RuleResult('R19.i', 'the categories whose characters a rule may consume without emitting (Ignored, Invalid) '
                     'contain only NUL and DEL', floor=2)
     for cname in ('Ignored', 'Invalid'):
